@@ -12,6 +12,12 @@ Oracle (the statement, nothing of the implementation):
               vanish); an ascmhl folder may be created only directly in the root and then the root's own mtime may
               change; every other entry (media files, directories, symlinks, option files) keeps type, bytes, mtime_ns
               and mode.
+  killed create / flatten (subprocess ended with os._exit at the k-th file-system event): the same frames, except that
+              a killed run may leave unfinished files inside the ascmhl folders (destination) it was writing; old manifests and
+              everything outside stay as they were; the commands run next (verify, info, create, ...) are judged as above.
+A modifying call recorded by the audit hook (mkdir, remove, rename, utime, chmod, truncating/creating open, tempfile, ...) is
+a violation for the read-only commands wherever it goes; for create / flatten when it hits an existing path outside the frame
+or leaves a new entry there (scratch entries elsewhere that are gone again are tolerated).
 Before each command every entry of the world is given an old mtime with a non-zero nanosecond part (instants on both
 sides of / inside daylight-saving switches), so a rewrite or an mtime "restore" with coarser precision is visible.
 """
@@ -305,8 +311,8 @@ def judge(run, cid, w, frame, cmdline, code, exc, before, after, rec, crashed=Fa
                     if after[rel][0] == "f" and MANIFEST_RE.match(name):
                         added_manifests.setdefault(os.path.dirname(p), []).append(name)
                         continue
-                    if crashed and name.endswith(".tmp"):
-                        continue
+                    if crashed and after[rel][0] == "f":
+                        continue  # a killed run cannot tidy up; what can be asked of it is that it wrote only here
                     bad(what, rel, "create/left-behind", "only the new manifest and the chain file are left in an ascmhl folder")
                 elif what == "removed":
                     if name.endswith(".tmp"):
@@ -315,7 +321,7 @@ def judge(run, cid, w, frame, cmdline, code, exc, before, after, rec, crashed=Fa
                 else:
                     if name == CHAIN and after[rel][0] == "f":
                         continue
-                    if crashed and name.endswith(".tmp"):
+                    if crashed and not name.endswith(".mhl") and after[rel][0] == "f":
                         continue
                     bad(what, rel, f"create/altered-history-file/{what}", "only the chain file is rewritten")
                 continue
@@ -916,6 +922,9 @@ def crash_part(run, rnd):
             rest = [k for k in ks if k not in near]
             rnd.shuffle(rest)
             ks = sorted((near + rest)[: limit[sid]]) if len(near) < limit[sid] else sorted(rnd.sample(near, limit[sid]))
+        if run.only is not None:  # a replay names its kill point itself (it need not be in this tier's sample)
+            m = re.match(rf"crash/{re.escape(sid)}/(\d+)", run.only)
+            ks = [int(m.group(1))] if m and 1 <= int(m.group(1)) <= len(events) else []
         jobs = []
         for k in ks:
             cid = f"crash/{sid}/{k}"
@@ -1024,7 +1033,7 @@ def main():
         "symlinks to file / dir inside / dir outside / dangling), <= 3 nested histories (3 levels), 15 history shapes (none, 1, "
         "mixed formats with -n and -sf, failed generation, 12 generations, ignore patterns incl. -ii / negation / slashes, edited "
         "tree with mtime+size preserved, missing/garbage chain, modified/missing manifest, stale .tmp, junk in ascmhl, deleted "
-        "nested ascmhl, empty ascmhl), 8 TZ values, ~55 read-only / ~35 create / ~16 flatten option variants, root spelled "
+        "nested ascmhl, empty ascmhl), 8 TZ values, ~80 read-only / ~45 create / ~17 flatten option variants, root spelled "
         "abs / trailing slash / relative / '.' / with '..' / via symlink / relative to a foreign cwd; kills at up to 14 (quick) "
         "or all (thorough) file-system events of create and flatten",
     )
